@@ -13,12 +13,13 @@ def run(ctx):
         # received certificates interleaved
         s = P.scn(votes=votes, certs=[("nf", 5, "A"), ("skip", 5, "-")])
         P.run_model(ctx, "slot_221", [2, 2, 1], 0, 7, [s], INVS, P.rel_c03, sample=250000,
-                    witnesses=["W_CertCreated"])
+                    witnesses=["W_CertCreated"], scale=3 * 10**18)
     else:
         for stakes in ([2, 2, 1], [3, 1, 1], [1, 1, 1]):
             s = P.scn(votes=votes, certs=[("nf", 5, "A"), ("skip", 5, "-"), ("final", 5, "-")])
             P.run_model(ctx, "slot_" + "".join(map(str, stakes)), stakes, 0, 7, [s], INVS, P.rel_c03,
-                        sample=1500000, witnesses=["W_CertCreated"], timeout=3000)
+                        sample=1500000, witnesses=["W_CertCreated"], timeout=3000,
+                        scale=(18 * 10**18) // sum(stakes), scale_sample=500000)
         # four / five validators: model-checked in full, replayed by sample
         for stakes in ([3, 3, 2, 2], [1, 1, 1, 1, 1]):
             v4 = P.scn_votes([5], ["A", "B"], ["notar", "nf", "skip", "sf", "final"])
